@@ -1833,8 +1833,16 @@ def n_str_trim(ex, callee, a, env):
 
 
 # ----------------------------------------------------------------------------- std feature build only: std::vec::Vec<u8> / String as writers
+def _heap(ex, callee):
+    """these models stand for heap-allocating functions: legitimate only in the MIR of the std-feature build"""
+    if not getattr(ex, 'std_world', False):
+        ex.alloc_calls.append('alloc::' + callee.split('<')[0])
+        raise Unsupported(f'call to alloc::{callee} (heap allocation) in the default-feature build')
+
+
 @native(r'^(alloc::fmt::|std::fmt::)?format$', 'alloc::fmt::format (std feature)')
 def n_format(ex, callee, a, env):
+    _heap(ex, 'fmt::format')
     h = HVec(10 ** 9, True)
     h.std = True
     for piece in render_arguments(ex, a[0]):
@@ -1850,6 +1858,7 @@ def n_string_as_bytes(ex, callee, a, env):
 
 @native(r'^(std|alloc)::vec::Vec(::<.*>)?::extend_from_slice$', 'std Vec::extend_from_slice (std feature)')
 def n_stdvec_extend(ex, callee, a, env):
+    _heap(ex, 'vec::Vec::extend_from_slice')
     v, sl = deref(a[0]), as_slice(a[1])
     v.items.extend(sl.items())
     return UNIT
@@ -1857,6 +1866,7 @@ def n_stdvec_extend(ex, callee, a, env):
 
 @native(r'^(std|alloc)::vec::Vec(::<.*>)?::push$', 'std Vec::push (std feature)')
 def n_stdvec_push(ex, callee, a, env):
+    _heap(ex, 'vec::Vec::push')
     deref(a[0]).items.append(a[1])
     return UNIT
 
@@ -1912,3 +1922,65 @@ def n_copysign(ex, callee, a, env):
     r = FloatVal((fb & m) | (gb & (1 << (w - 1))), f.ty, f.src)
     r.ops = list(f.ops or []) + ['copysign']
     return r
+
+
+# ----------------------------------------------------------------------------- more str / char / integer helpers met in refactorings
+@native(r'^(core::)?str::<impl str>::(trim_start_matches|trim_end_matches|trim_matches)::<char>$', 'str::trim_*_matches::<char> (ASCII pattern)')
+def n_str_trim_matches(ex, callee, a, env):
+    sl = as_slice(a[0])
+    c = a[1]
+    if not isinstance(c, int) or c > 0x7F:
+        raise Unsupported('trim_matches with a symbolic or non-ASCII pattern')
+    items = list(sl.items())
+    lo, hi = 0, len(items)
+    T = ex.truth
+    if 'trim_end_matches' not in callee:
+        while lo < hi and T(_eq(items[lo], c)):
+            lo += 1
+    if 'trim_start_matches' not in callee:
+        while hi > lo and T(_eq(items[hi - 1], c)):
+            hi -= 1
+    return Slice(sl.buf, sl.start + lo, hi - lo, True)
+
+
+@native(r'^(core::)?char::methods::<impl char>::(to_digit|is_digit)$', 'char::to_digit')
+def n_char_to_digit(ex, callee, a, env):
+    c, radix = a[0], a[1]
+    if not isinstance(radix, int):
+        radix = ex.concretize(radix, 0, 64)
+    if not 2 <= radix <= 36:
+        raise Panic('to_digit: radix is too high (maximum 36)')
+    T = ex.truth
+    d = None
+    if isinstance(c, int):
+        d = c - 48 if 48 <= c <= 57 else c - 87 if 97 <= c <= 122 else c - 55 if 65 <= c <= 90 else None
+        if d is not None and d >= radix:
+            d = None
+    else:
+        w = c.size()
+        if T(And(z3.UGE(c, 48), z3.ULE(c, 57))):
+            d = c - z3.BitVecVal(48, w)
+        elif radix > 10 and T(And(z3.UGE(c, 97), z3.ULE(c, 122))):
+            d = c - z3.BitVecVal(87, w)
+        elif radix > 10 and T(And(z3.UGE(c, 65), z3.ULE(c, 90))):
+            d = c - z3.BitVecVal(55, w)
+        if d is not None and not T(z3.ULT(d, radix)):
+            d = None
+    if callee.endswith('is_digit'):
+        return d is not None
+    if d is None:
+        return NONE()
+    if not isinstance(d, int) and d.size() != 32:
+        d = z3.ZeroExt(32 - d.size(), d)
+    return Some(d)
+
+
+@native(r'^(core::)?num::<impl (u8|u16|u32|u64|usize)>::(div_ceil|next_multiple_of)$', 'uN::div_ceil')
+def n_div_ceil(ex, callee, a, env):
+    x, y = a[0], a[1]
+    if not (isinstance(x, int) and isinstance(y, int)):
+        raise Unsupported('div_ceil on symbolic operands')
+    if y == 0:
+        raise Panic('attempt to divide by zero')
+    q = -(-x // y)
+    return q if callee.endswith('div_ceil') else q * y
